@@ -5,27 +5,28 @@ Import ListNotations.
 Require Import FV.Base.Util FV.C14.Model.
 
 (* ------------------------------------------------------------------ frame lemmas *)
-Ltac unf := unfold new_state, pickup, do_cleanup, hook, post, emit, set_statefunc, set_next_task,
+Ltac unf := unfold new_state, pickup, pickup_locked, do_cleanup, hook, post, emit, set_statefunc, set_next_task,
   set_cleanup, set_reason, set_init, set_attrs in *.
 
+Ltac hookframe W s :=
+  unfold hook, post, set_next_task; destruct (w_env W (ctr s)) as [t|]; [destruct (suppressed W (ctr s) t s)|]; reflexivity.
+
 Lemma hook_trace W s : trace (hook W s) = trace s.
-Proof. unfold hook, post, set_next_task; destruct (w_env W (ctr s)); reflexivity. Qed.
+Proof. hookframe W s. Qed.
 Lemma hook_cleanup W s : cleanup (hook W s) = cleanup s.
-Proof. unfold hook, post, set_next_task; destruct (w_env W (ctr s)); reflexivity. Qed.
+Proof. hookframe W s. Qed.
 Lemma hook_init W s : init (hook W s) = init s.
-Proof. unfold hook, post, set_next_task; destruct (w_env W (ctr s)); reflexivity. Qed.
+Proof. hookframe W s. Qed.
 Lemma hook_statefunc W s : statefunc (hook W s) = statefunc s.
-Proof. unfold hook, post, set_next_task; destruct (w_env W (ctr s)); reflexivity. Qed.
+Proof. hookframe W s. Qed.
 Lemma hook_reason W s : cleanup_reason (hook W s) = cleanup_reason s.
-Proof. unfold hook, post, set_next_task; destruct (w_env W (ctr s)); reflexivity. Qed.
+Proof. hookframe W s. Qed.
 Lemma hook_attrs W s : attrs (hook W s) = attrs s.
-Proof. unfold hook, post, set_next_task; destruct (w_env W (ctr s)); reflexivity. Qed.
+Proof. hookframe W s. Qed.
 Lemma hook_next_task_quiet W s : w_env W (ctr s) = None -> next_task (hook W s) = next_task s.
 Proof. unfold hook; intros ->; reflexivity. Qed.
 Lemma hook_ctr W s : ctr (hook W s) = S (ctr s).
-Proof. unfold hook, post, set_next_task; destruct (w_env W (ctr s)); reflexivity. Qed.
-
-Definition active (s : sm) : bool := match statefunc s with Some _ => true | None => false end.
+Proof. hookframe W s. Qed.
 
 Lemma new_state_trace W s f : trace (new_state W s f) = EvTrans (active s) f :: trace s.
 Proof. unfold new_state, active; cbn. rewrite hook_trace. reflexivity. Qed.
@@ -55,7 +56,8 @@ Proof.
   unfold do_cleanup.
   destruct (cleanup_reason s) eqn:Hr; cbn; rewrite ?Hr; cbn;
     (destruct (cleanup s) as [[o c]|] eqn:Hc; cbn; rewrite ?Hc; cbn;
-     [ destruct (w_c W (ctr s)); cbn;
+     [ match goal with |- context [w_c W ?n] => destruct (w_c W n) end; cbn;
+       rewrite ?hook_statefunc, ?hook_init, ?hook_attrs, ?hook_cleanup, ?hook_reason, ?hook_trace; cbn;
        rewrite ?hook_statefunc, ?hook_init, ?hook_attrs, ?hook_cleanup, ?hook_reason, ?hook_trace; cbn;
        rewrite ?Hr; auto 10
      | auto 10 ]).
@@ -160,11 +162,18 @@ Proof.
   - pose proof (IH s'). lia.
 Qed.
 
+Lemma pickup_locked_counts W s :
+  ncalls (pickup_locked W s) = ncalls s /\ ncleanups (pickup_locked W s) = ncleanups s.
+Proof.
+  unfold pickup_locked. destruct (next_task s) as [[i f cl kw|i]|]; auto.
+  unfold ncalls, ncleanups. cbn. rewrite hook_trace. cbn. auto.
+Qed.
+
 Lemma pickup_counts W s :
   ncalls (pickup W s) = ncalls s /\ ncleanups (pickup W s) = ncleanups s.
 Proof.
-  unfold pickup. destruct (next_task s) as [[i f cl kw|i]|]; auto.
-  unfold ncalls, ncleanups. cbn. rewrite hook_trace. cbn. auto.
+  unfold pickup. destruct (next_task s); [|auto].
+  pose proof (pickup_locked_counts W (hook W s)) as [A B]. pose proof (hook_counts W s) as (C & D & _). lia.
 Qed.
 
 Lemma round_counts W m s :
@@ -302,13 +311,18 @@ Proof.
   - apply IH. exact T.
 Qed.
 
-Lemma pickup_FInv W s : FInv s -> FInv (pickup W s).
+Lemma pickup_locked_FInv W s : FInv s -> FInv (pickup_locked W s).
 Proof.
-  intros HF. unfold pickup. destruct (next_task s) as [[i f cl kw|i]|]; [| |exact HF].
+  intros HF. unfold pickup_locked. destruct (next_task s) as [[i f cl kw|i]|]; [| |exact HF].
   - match goal with |- FInv (set_attrs (set_cleanup ?x _) _) => assert (H : FInv x) end.
     { apply new_state_FInv. cbn. apply HF. }
     destruct H as [[A B] C]. repeat split; assumption.
   - destruct HF as [[A B] C]. repeat split; cbn; assumption.
+Qed.
+
+Lemma pickup_FInv W s : FInv s -> FInv (pickup W s).
+Proof.
+  intros HF. unfold pickup. destruct (next_task s); [|exact HF]. apply pickup_locked_FInv, hook_FInv, HF.
 Qed.
 
 Lemma round_FInv W m s : FInv s -> FInv (fst (round W m s)).
@@ -420,9 +434,9 @@ Proof.
   repeat split; intros; auto; try (apply H3; assumption); try (apply H4; auto).
 Qed.
 
-Lemma pickup_CInv W s : CInv s -> statefunc s = None -> CInv (pickup W s).
+Lemma pickup_locked_CInv W s : CInv s -> statefunc s = None -> CInv (pickup_locked W s).
 Proof.
-  intros (Hok & Hneed & H3 & H4 & H5) Hidle. unfold pickup.
+  intros (Hok & Hneed & H3 & H4 & H5) Hidle. unfold pickup_locked.
   destruct (next_task s) as [[i f cl kw|i]|]; [| |exact (conj Hok (conj Hneed (conj H3 (conj H4 H5))))].
   - unfold CInv. cbn [trace cleanup statefunc cleanup_reason set_attrs set_cleanup].
     rewrite new_state_trace. unfold active. cbn [statefunc emit set_reason set_next_task trace].
@@ -431,6 +445,12 @@ Proof.
   - unfold CInv. cbn. rewrite Hok, Hneed. cbn.
     repeat split; intros; auto; try discriminate; try (apply H3; assumption).
     rewrite Hidle in *. congruence.
+Qed.
+
+Lemma pickup_CInv W s : CInv s -> statefunc s = None -> CInv (pickup W s).
+Proof.
+  intros HC Hidle. unfold pickup. destruct (next_task s); [|exact HC].
+  apply pickup_locked_CInv; [apply hook_CInv, HC|rewrite hook_statefunc; exact Hidle].
 Qed.
 
 Definition CPost (d : decision) : Prop := CInv (dstate d) /\ statefunc (dstate d) <> None.
@@ -557,7 +577,8 @@ Proof.
   intros Q. unfold do_cleanup.
   destruct (cleanup_reason s) eqn:Hr; cbn; rewrite ?Hr; cbn;
     (destruct (cleanup s) as [[o c]|] eqn:Hc; cbn; rewrite ?Hc; cbn;
-     [ destruct (w_c W (ctr s)); cbn; rewrite ?hook_next_task by exact Q; reflexivity | reflexivity ]).
+     [ match goal with |- context [w_c W ?n] => destruct (w_c W n) end; cbn;
+       rewrite ?hook_next_task by exact Q; cbn; rewrite ?hook_next_task by exact Q; reflexivity | reflexivity ]).
 Qed.
 
 (* what one inner-loop turn guarantees while a request is pending and nobody interferes *)
@@ -655,16 +676,20 @@ Lemma pickup_start W s i f cl kw :
   statefunc s' = Some f /\ init s' = true /\ next_task s' = None /\ cleanup_reason s' = None /\
   cleanup s' = option_map (fun c => (i, c)) cl /\ attrs s' = upd_all kw (attrs s).
 Proof.
-  intros Q Hn. unfold pickup. rewrite Hn. cbn [statefunc init next_task cleanup_reason cleanup attrs set_attrs set_cleanup].
-  rewrite new_state_next_task, new_state_reason, new_state_attrs by exact Q. cbn.
+  intros Q Hn. unfold pickup. rewrite Hn. unfold pickup_locked. rewrite hook_next_task, Hn by exact Q.
+  cbn [statefunc init next_task cleanup_reason cleanup attrs set_attrs set_cleanup].
+  rewrite new_state_next_task, new_state_reason, new_state_attrs by exact Q. cbn. rewrite hook_attrs.
   repeat split; auto; destruct cl; reflexivity.
 Qed.
 
 Lemma pickup_stop W s i :
-  next_task s = Some (TStop i) ->
+  quiet W -> next_task s = Some (TStop i) ->
   let s' := pickup W s in
   statefunc s' = statefunc s /\ next_task s' = None /\ cleanup_reason s' = None /\ attrs s' = attrs s.
-Proof. intros Hn. unfold pickup. rewrite Hn. cbn. auto. Qed.
+Proof.
+  intros Q Hn. unfold pickup. rewrite Hn. unfold pickup_locked. rewrite hook_next_task, Hn by exact Q. cbn.
+  rewrite hook_statefunc, hook_attrs. auto.
+Qed.
 
 Theorem start_wins W m s i f cl kw :
   quiet W -> 0 < m -> RInv s -> next_task s = Some (TStart i f cl kw) ->
@@ -686,7 +711,7 @@ Theorem stop_makes_inactive W m s i :
 Proof.
   intros Q Hm HR Hn. pose proof (round_progress W m s _ Q Hm HR Hn) as P.
   destruct (round W m s) as [s' [|]]; [|exact P].
-  destruct P as (s1 & P1 & P2 & P3 & ->). pose proof (pickup_stop W s1 i P1) as (A & B & C & D).
+  destruct P as (s1 & P1 & P2 & P3 & ->). pose proof (pickup_stop W s1 i Q P1) as (A & B & C & D).
   repeat split; congruence.
 Qed.
 
@@ -700,11 +725,15 @@ Lemma new_state_RInv W s f : RInv s -> RInv (new_state W s f).
 Proof. unfold RInv. rewrite new_state_reason, new_state_cleanup. auto. Qed.
 Lemma hook_RInv W s : RInv s -> RInv (hook W s).
 Proof. unfold RInv. rewrite hook_reason, hook_cleanup. auto. Qed.
-Lemma pickup_RInv W s : RInv s -> RInv (pickup W s).
+Lemma pickup_locked_RInv W s : RInv s -> RInv (pickup_locked W s).
 Proof.
-  intros H. unfold pickup. destruct (next_task s) as [[i f cl kw|i]|]; [| |exact H].
+  intros H. unfold pickup_locked. destruct (next_task s) as [[i f cl kw|i]|]; [| |exact H].
   - unfold RInv. cbn [cleanup_reason cleanup set_attrs set_cleanup]. rewrite new_state_reason. cbn. congruence.
   - unfold RInv. cbn. congruence.
+Qed.
+Lemma pickup_RInv W s : RInv s -> RInv (pickup W s).
+Proof.
+  intros H. unfold pickup. destruct (next_task s); [|exact H]. apply pickup_locked_RInv, hook_RInv, H.
 Qed.
 Lemma after_cleanup_RInv W s r : RInv (dstate (after_cleanup W (do_cleanup W s r))).
 Proof.
